@@ -171,7 +171,7 @@ MSigMut(ms) == /\ Cur.pd.shape = MDA /\ ms # Cur.pd.msig
                     Forge([Cur EXCEPT !.pd = pd2, !.sig = Resigned(Cur.sig, pd2)])
 MSigForgeries == \/ MSigMut([by |-> "memA", over |-> Cur.pd.dev, st |-> "ok"])
                  \/ MSigMut([by |-> "memV", over |-> "devV", st |-> "ok"])   \* observed in V's announcement
-                 \/ MSigMut([Cur.pd.msig EXCEPT !.st = "flip"])
+                 \/ Cur.pd.msig.st = "ok" /\ MSigMut([Cur.pd.msig EXCEPT !.st = "flip"])
                  \/ MSigMut(NoMSig)
 \* "this device of mine belongs to V": claim V's member key, with own or V's copied member signature
 ClaimMember(copy) ==
